@@ -1,5 +1,6 @@
 (** C01 — handleDATA under every configuration: the size limit (552 per
-    recipient), the quota pass (computed, logged, ignored), the folder. *)
+    recipient), the quota pass (an over-quota recipient is skipped and answered
+    552 in its own position, raven 57171c2), the folder. *)
 From Coq Require Import String Ascii List Bool ZArith Lia.
 From Raven Require Import Base.GoStr Model.Store Model.Ops Model.Deliver Spec.DeliverSpec
   Proof.DeliverStore Proof.DeliverWorld Proof.DeliverHist Proof.DeliverFresh.
@@ -7,20 +8,6 @@ Import ListNotations.
 Local Open Scope Z_scope.
 
 Definition idle (w : world) (rs : list str) : list attempt := map (fun r => mkAtt w w r false) rs.
-
-Lemma handle_data_cases c oq w rs p size clk :
-  handle_data c oq w rs p size clk =
-  if c_max_size c <? size then (w, map (fun _ => R552) rs, idle w rs)
-  else lmtp_data w (c_folder c) rs p clk.
-Proof.
-  unfold handle_data, lmtp_data, deliver_to, idle. destruct (c_max_size c <? size); [reflexivity|].
-  destruct (p_ok p); reflexivity.
-Qed.
-
-(** the verdict of CheckQuota has no influence on replies or stores *)
-Lemma quota_verdict_irrelevant c oq oq' w rs p size clk :
-  handle_data c oq w rs p size clk = handle_data c oq' w rs p size clk.
-Proof. now rewrite !handle_data_cases. Qed.
 
 Lemma spec_refused_all w folder rs p c :
   is_2xx c = false -> spec_result w folder rs p (w, map (fun _ => c) rs, idle w rs).
@@ -32,26 +19,167 @@ Proof.
     unfold position_ok. rewrite Hc. intros k. reflexivity.
 Qed.
 
-Lemma c01_any_configuration_l c oq w rs p size clk :
-  WInv w -> (c_max_size c <? size = true \/ classify w (c_folder c) rs p clk = None) ->
-  spec_C01_cfg c oq w rs p size clk.
+(** ---- the delivery loop with skipped positions ------------------------------------ *)
+
+(** it is DeliverToMultipleRecipients on the filtered list: same final world,
+    and the non-ghost attempts are exactly the attempts of that call *)
+Lemma deliver_all_q_filter skip folder p clk rs : forall w i,
+  let f := fun r => negb (skip r) in
+  fst (deliver_all_q skip w folder rs p clk i) = fst (deliver_all w folder (filter f rs) p clk i) /\
+  filter (fun a => negb (skip (a_rcpt a))) (snd (deliver_all_q skip w folder rs p clk i))
+    = snd (deliver_all w folder (filter f rs) p clk i).
 Proof.
-  intros I H. unfold spec_C01_cfg. rewrite handle_data_cases.
-  destruct (c_max_size c <? size) eqn:E.
-  - now apply spec_refused_all.
-  - destruct H as [H|H]; [discriminate|]. now apply c01_accept_iff_visible_l.
+  induction rs as [|r rest IH]; intros w i f; simpl; [auto|].
+  unfold f. destruct (skip r) eqn:Sk; simpl.
+  - specialize (IH w i). destruct (deliver_all_q skip w folder rest p clk i) as [w2 atts]. simpl in *.
+    rewrite Sk. simpl. exact IH.
+  - destruct (deliver_message w folder r p (clk i)) as [w1 ok].
+    specialize (IH w1 (S i)). destruct (deliver_all_q skip w1 folder rest p clk (S i)) as [w2 atts].
+    simpl in IH. destruct IH as [IH1 IH2]. revert IH1 IH2.
+    destruct (deliver_all w1 folder (filter (fun r0 => negb (skip r0)) rest) p clk (S i)) as [w3 atts3].
+    simpl. intros -> <-. rewrite Sk. simpl. auto.
+Qed.
+
+Lemma deliver_all_q_spec skip folder p clk rs : forall w i w' atts,
+  WInv w -> deliver_all_q skip w folder rs p clk i = (w', atts) ->
+  WInv w' /\ map a_rcpt atts = rs /\ chain w atts w' /\ Forall (att_ok folder p) atts /\
+  Forall (fun a => skip (a_rcpt a) = true -> a_ok a = false) atts.
+Proof.
+  induction rs as [|r rest IH]; intros w i w' atts I; simpl.
+  - intros [= <- <-]. simpl. auto.
+  - destruct (skip r) eqn:Sk.
+    + destruct (deliver_all_q skip w folder rest p clk i) as [w2 atts'] eqn:A. intros [= <- <-].
+      destruct (IH _ _ _ _ I A) as (I2 & Em & Ch & Fa & Fs).
+      split; [exact I2|]. simpl. rewrite Em. repeat split; auto.
+      constructor; [|exact Fa]. split; simpl; [|discriminate]. intros _ k. reflexivity.
+    + destruct (deliver_message w folder r p (clk i)) as [w1 ok] eqn:D.
+      destruct (deliver_all_q skip w1 folder rest p clk (S i)) as [w2 atts'] eqn:A. intros [= <- <-].
+      destruct (deliver_message_spec _ _ _ _ _ _ _ I D) as (I1 & Hatt).
+      destruct (IH _ _ _ _ I1 A) as (I2 & Em & Ch & Fa & Fs).
+      split; [exact I2|]. simpl. rewrite Em. repeat split; auto.
+      constructor; [|exact Fs]. simpl. intros X. congruence.
+Qed.
+
+Lemma c01_any_configuration_l c oq w rs p size clk :
+  WInv w -> classify_cfg c oq w rs p size clk = None -> spec_C01_cfg c oq w rs p size clk.
+Proof.
+  intros I. unfold classify_cfg, spec_C01_cfg, handle_data.
+  destruct (c_max_size c <? size); simpl; [intros _; now apply spec_refused_all|].
+  destruct (p_ok p); simpl; [|intros _; now apply spec_refused_all].
+  set (skip := skipped c oq).
+  destruct (deliver_all_q skip w (c_folder c) rs p clk 0) as [w' atts] eqn:A.
+  destruct (deliver_all_q_spec _ _ _ _ _ _ _ _ _ I A) as (_ & Em & Ch & Fa & Fs).
+  destruct (existsb _ atts) eqn:Mm; [discriminate|]. intros _. unfold spec_result.
+  split; [now rewrite map_length|]. split; [exact Em|]. split; [exact Ch|].
+  rewrite <- Em, map_map. apply Forall2_map_self. intros a Ha.
+  pose proof (proj1 (Forall_forall _ _) Fa a Ha) as [Hrej Hacc].
+  pose proof (proj1 (Forall_forall _ _) Fs a Ha) as Hs.
+  unfold position_ok. destruct (skip (a_rcpt a)) eqn:Sk; simpl.
+  - apply Hrej. now apply Hs.
+  - assert (Eq : a_ok a = is_2xx (reply_for (results_q skip atts) (a_rcpt a))).
+    { destruct (Bool.eqb (a_ok a) (is_2xx (reply_for (results_q skip atts) (a_rcpt a)))) eqn:E.
+      - now apply eqb_prop.
+      - exfalso. assert (X : existsb (fun a => negb (skip (a_rcpt a)) && mismatch (results_q skip atts) a) atts = true).
+        { apply existsb_exists. exists a. split; [exact Ha|]. unfold mismatch. now rewrite Sk, E. }
+        congruence. }
+    rewrite <- Eq. destruct (a_ok a) eqn:Ok.
+    + destruct (Hacc eq_refl) as (k & u' & m & l & np & H1 & H2 & H3 & H4 & H5 & H6 & H7 & H8).
+      assert (Hpos : (0 <? np)%nat = true).
+      { destruct (p_shape p); simpl in *; try discriminate; injection H6 as <-; reflexivity. }
+      exists k, u', m, l. repeat split; auto.
+      * unfold reconstructs. rewrite H7. exact Hpos.
+      * exists (mkMsg (lk_msg l) (p_hdrs p) np). auto.
+    + now apply Hrej.
+Qed.
+
+(** an over-quota recipient is answered 552 in its own position, and its
+    position files nothing *)
+Lemma over_quota_refused c oq w rs p size clk :
+  c_max_size c <? size = false -> p_ok p = true ->
+  let '(_, replies, atts) := handle_data c oq w rs p size clk in
+  Forall2 (fun r c' => skipped c oq r = true -> c' = R552) rs replies /\
+  Forall (fun a => skipped c oq (a_rcpt a) = true -> a_before a = a_after a /\ a_ok a = false) atts.
+Proof.
+  intros E1 E2. unfold handle_data. rewrite E1, E2. simpl.
+  set (skip := skipped c oq). generalize 0%nat as i. intros i.
+  destruct (deliver_all_q skip w (c_folder c) rs p clk i) as [w' atts] eqn:A. split.
+  - remember (results_q skip atts) as m eqn:Em. clear. induction rs as [|r rest IH]; simpl; constructor; [|exact IH].
+    intros Sk. fold skip in Sk. now rewrite Sk.
+  - revert w i w' atts A. induction rs as [|r rest IH]; intros w i w' atts; simpl.
+    + intros [= <- <-]. constructor.
+    + destruct (skip r) eqn:Sk.
+      * destruct (deliver_all_q skip w (c_folder c) rest p clk i) as [w2 atts'] eqn:A. intros [= <- <-].
+        constructor; [simpl; auto | eapply IH; eauto].
+      * destruct (deliver_message w (c_folder c) r p (clk i)) as [w1 ok].
+        destruct (deliver_all_q skip w1 (c_folder c) rest p clk (S i)) as [w2 atts'] eqn:A. intros [= <- <-].
+        constructor; [simpl; intros X; fold skip in X; congruence | eapply IH; eauto].
+Qed.
+
+(** ---- fresh worlds: no class at all ------------------------------------------------ *)
+
+Lemma deliver_all_q_outcomes skip folder p clk rs : forall w i,
+  WFresh w -> target_folder folder p <> [] ->
+  Forall (fun a => skip (a_rcpt a) = false -> a_ok a = deliverable w folder (a_rcpt a) p)
+         (snd (deliver_all_q skip w folder rs p clk i)).
+Proof.
+  induction rs as [|r rest IH]; intros w i F Ht; simpl; [constructor|].
+  destruct (skip r) eqn:Sk.
+  - specialize (IH w i F Ht). destruct (deliver_all_q skip w folder rest p clk i) as [w2 atts]. simpl in *.
+    constructor; [simpl; congruence | exact IH].
+  - destruct (deliver_message_outcome w folder r p (clk i) F Ht) as (w1 & E & F1 & Er).
+    rewrite E. specialize (IH w1 (S i) F1 Ht).
+    destruct (deliver_all_q skip w1 folder rest p clk (S i)) as [w2 atts]. simpl in *.
+    constructor; [reflexivity|].
+    eapply Forall_impl; [|exact IH]. intros a Ha X. simpl in Ha.
+    rewrite <- (deliverable_roles w w1 folder (a_rcpt a) p Er). now apply Ha.
+Qed.
+
+Lemma c01_cfg_class_needs_stale_l c oq w rs p size clk :
+  WFresh w -> c_folder c <> [] -> classify_cfg c oq w rs p size clk = None.
+Proof.
+  intros F Hf. unfold classify_cfg. destruct ((c_max_size c <? size) || negb (p_ok p)); [reflexivity|].
+  set (skip := skipped c oq).
+  assert (Ht : target_folder (c_folder c) p <> []).
+  { unfold target_folder. destruct (p_spam p); [discriminate | exact Hf]. }
+  pose proof (deliver_all_q_outcomes skip (c_folder c) p clk rs w 0%nat F Ht) as O.
+  destruct (deliver_all_q skip w (c_folder c) rs p clk 0) as [w' atts]. simpl in O.
+  assert (X : existsb (fun a => negb (skip (a_rcpt a)) && mismatch (results_q skip atts) a) atts = false).
+  { apply not_true_is_false. intros C. apply existsb_exists in C. destruct C as (a & Ha & M).
+    apply andb_true_iff in M. destruct M as [Sk M]. apply negb_true_iff in Sk.
+    unfold mismatch, reply_for, results_q, results_of in M. rewrite rlookup_results in M.
+    destruct (find (fun b => str_eqb (a_rcpt b) (a_rcpt a)) (rev (filter (fun a0 => negb (skip (a_rcpt a0))) atts))) as [b|] eqn:Fd.
+    - apply find_some in Fd. destruct Fd as [Hb Eb]. apply in_rev in Hb. apply filter_In in Hb.
+      destruct Hb as [Hb Sb]. apply negb_true_iff in Sb. apply str_eqb_eq in Eb.
+      rewrite (proj1 (Forall_forall _ _) O a Ha Sk), (proj1 (Forall_forall _ _) O b Hb Sb), Eb in M.
+      destruct (deliverable w (c_folder c) (a_rcpt a) p); discriminate.
+    - assert (Hin : In a (rev (filter (fun a0 => negb (skip (a_rcpt a0))) atts))).
+      { apply in_rev. rewrite rev_involutive. apply filter_In. split; [exact Ha | now rewrite Sk]. }
+      pose proof (find_none _ _ Fd a Hin) as Y. simpl in Y. now rewrite str_eqb_refl in Y. }
+  now rewrite X.
 Qed.
 
 Lemma c01_any_configuration_fresh_l c oq w rs p size clk :
   WInv w -> WFresh w -> c_folder c <> [] -> spec_C01_cfg c oq w rs p size clk.
 Proof.
-  intros I F Ht. unfold spec_C01_cfg. rewrite handle_data_cases.
-  destruct (c_max_size c <? size); [now apply spec_refused_all|].
-  apply c01_holds_when_fresh_l; auto.
-  unfold target_folder. destruct (p_spam p); [discriminate | exact Ht].
+  intros I F Hf. apply c01_any_configuration_l; [exact I|]. now apply c01_cfg_class_needs_stale_l.
 Qed.
 
 Lemma c01_any_configuration_hist_l roles h c oq rs p size clk :
-  (c_max_size c <? size = true \/ classify (wrun h (w0 roles)) (c_folder c) rs p clk = None) ->
+  classify_cfg c oq (wrun h (w0 roles)) rs p size clk = None ->
   spec_C01_cfg c oq (wrun h (w0 roles)) rs p size clk.
 Proof. apply c01_any_configuration_l. apply wrun_WInv, WInv_w0. Qed.
+
+(** with quota switched off (or nobody over quota) handleDATA is [lmtp_data] *)
+Lemma handle_data_no_quota c oq w rs p size clk :
+  (forall r, skipped c oq r = false) -> c_max_size c <? size = false ->
+  handle_data c oq w rs p size clk = lmtp_data w (c_folder c) rs p clk.
+Proof.
+  intros Hs E. unfold handle_data, lmtp_data. rewrite E. destruct (p_ok p); simpl; [|reflexivity].
+  assert (G : forall rs w i, deliver_all_q (skipped c oq) w (c_folder c) rs p clk i = deliver_all w (c_folder c) rs p clk i).
+  { induction rs0 as [|r rest IH]; intros w0 i; simpl; [reflexivity|]. rewrite Hs.
+    destruct (deliver_message w0 (c_folder c) r p (clk i)) as [w1 ok]. now rewrite IH. }
+  rewrite G. destruct (deliver_all w (c_folder c) rs p clk 0) as [w' atts].
+  assert (Fl : filter (fun a => negb (skipped c oq (a_rcpt a))) atts = atts).
+  { induction atts as [|a r IH]; simpl; [reflexivity|]. rewrite Hs. simpl. now rewrite IH. }
+  unfold results_q. rewrite Fl. f_equal. f_equal. apply map_ext. intros r. now rewrite Hs.
+Qed.
